@@ -1,5 +1,6 @@
 import Upf.Proofs.AgentMark
 import Upf.Proofs.AgentQos
+import Upf.Proofs.GenEqAgent
 /-!
 # C09 — QoS is enforced as signalled; the session-wide limiter is chosen soundly (BESS part)
 
@@ -61,6 +62,11 @@ theorem mark_stable_fails :
     let q1' := q1.map fun q => if q.qerID = 1 then { q with ulMbr := 123457, session := false } else q
     let q2 := (markSessionQer (markSessionQer pdrs q0).2 q1').1
     q1.map (·.session) = [false, true] ∧ q2.map (·.session) = [true, true] := by decide
+
+/-- T1 tie: `calcBurstSizeFromRate` as regenerated from utils.go IS the model's `calcBurst`, every pair of 64-bit inputs — so
+`burst_exact` / `burst_lower` speak about the code's function -/
+theorem burst_is_the_code (kbps ms : BitVec 64) :
+    (Gen.Leaf.calcBurstSizeFromRate kbps ms).toNat = calcBurst kbps.toNat ms.toNat := Agent.calcBurst_gen kbps ms
 
 -- non-vacuity
 example : qerHalf 0 1000 0 7 9 = (0, 1, 125000) ∧ qerHalf 1 1000 0 7 9 = (5, 7, 9) := by decide
